@@ -1,5 +1,7 @@
 import QipVerif.Lemmas.NoiseGen
 import QipVerif.Lemmas.NoiseKron
+import QipVerif.Lemmas.NoiseReg
+import QipVerif.Lemmas.NoiseKraus3
 /-!
 # C15 — T1/T2 decoherence has exactly the specified rates and keeps states physical
 
@@ -11,12 +13,19 @@ model returns for a two- / three-level subsystem (`D[√rate·A] = rate·D[A]`: 
 
 What is proved: the generator has exactly the rates of the property (`d/dt ρ11 = −ρ11/t1`,
 `d/dt ρ01 = −ρ01/t2`, for every positive `t1`, every `0 < t2 ≤ 2 t1` incl. the boundary, t1-only,
-t2-only, d = 2 and d = 3), trace and Hermiticity preservation of every Lindblad generator, and the
-validation verdicts.  Not proved (see notes/C15.md): the solution of the linear ODE by the solver
-(`exp(−t/t1)`, `exp(−t/t2)` follow from these generator entries), complete positivity (GKLS).
+t2-only, d = 2 and d = 3), trace and Hermiticity preservation of every Lindblad generator, the
+validation verdicts; and (second half of this file) the **solution** of the idle master equation
+defined by the model's operators: the explicit `ρ(t)` for d = 2 and d = 3 solves `dρ/dt = 𝓛ρ`
+(`HasDerivAt`, every entry, every initial matrix), is the only solution on `[0, ∞)`, obeys the
+exponential laws, and maps density matrices (`Matrix.PosSemidef`, trace 1) to density matrices for
+all `t ≥ 0` — for d = 2 exactly when `t2 ≤ 2·t1`; for a register of any number of qubits with
+per-qubit times this holds for every joint (also entangled) state, for two subsystems of any
+dimensions for product states.  Not proved (see notes/C15.md): that the numerical solver returns
+this solution (trusted, compared numerically), positivity with a time-dependent Hamiltonian / other
+noise models (GKLS), entangled states involving a three-level subsystem.
 -/
 namespace QipVerif.C15
-open QipVerif.Noise Matrix
+open QipVerif.Noise Matrix ComplexOrder
 
 /-! ### Rates -/
 
@@ -227,5 +236,203 @@ example : processNoise true [2, 2] [.decoherence [7] [] true, .coherent, .relax 
       (.scalar ⟨2, 1⟩) .none true =
     .ok [⟨[0], .user 7, 2, some ⟨1, 1⟩⟩, ⟨[1], .user 7, 2, some ⟨1, 1⟩⟩, ⟨[1], .num, 2, some ⟨2, 1⟩⟩,
          ⟨[0], .destroy, 2, some ⟨1, 2⟩⟩, ⟨[1], .destroy, 2, some ⟨1, 2⟩⟩] := by decide
+
+/-! ## The solution of the idle master equation
+
+`Solves L ρ`: every entry of `ρ : ℝ → Matrix` has, at every real `t`, the derivative
+`(L (ρ t)) i j` (`HasDerivAt`).  `SolvesOnNonneg`: the same on `[0, ∞)` with one-sided derivative
+at `0`.  `IsDensity ρ`: `ρ.PosSemidef` (Mathlib; includes Hermitian) and `ρ.trace = 1`.
+`Admissible t1 t2` (each `Option Frac`): the given times are positive and `t2 ≤ 2·t1` if both are
+given.  `popRate t1 = 1/t1` (0 without t1), `cohRate t1 t2 = 1/t2` (`1/(2 t1)` without t2).
+`relaxSol2 γ Γ ρ₀ t = [[ρ₀₀₀ + (1 − e^{−γt}) ρ₀₁₁, e^{−Γt} ρ₀₀₁], [e^{−Γt} ρ₀₁₀, e^{−γt} ρ₀₁₁]]`. -/
+
+/-- **Qubit, explicit solution.**  For every admissible `(t1, t2)` — both given with `0 < t2 ≤ 2·t1`
+(boundary included), t1 only, t2 only — the repaired code accepts, and for every initial 2×2 matrix
+`ρ₀` the explicit `ρ(t)` solves `dρ/dt = 𝓛ρ` with `𝓛 = gen2 ops` built from the operators the model
+returns, and `ρ(0) = ρ₀`. -/
+theorem qubit_solution (q : Nat) (t1 t2 : Option Frac) (h : Admissible t1 t2) :
+    ∃ ops, qubitOps true 2 q t1 t2 = .ok ops ∧
+      ∀ ρ0, Solves (gen2 ops) (relaxSol2 (popRate t1) (cohRate t1 t2) ρ0) ∧
+        relaxSol2 (popRate t1) (cohRate t1 t2) ρ0 0 = ρ0 := by
+  obtain ⟨ops, hops, hg, _⟩ := qubitOps_gen_all 2 q t1 t2 h
+  refine ⟨ops, hops, fun ρ0 => ⟨?_, relaxSol2_zero _ _ _⟩⟩
+  have hgen : gen2 ops = relaxGen2 (popRate t1) (2 * cohRate t1 t2 - popRate t1) := funext hg
+  have hΓ : cohRate t1 t2 = popRate t1 / 2 + (2 * cohRate t1 t2 - popRate t1) / 2 := by ring
+  have := relaxSol2_solves (popRate t1) (2 * cohRate t1 t2 - popRate t1) ρ0
+  rw [← hΓ] at this
+  rw [hgen]; exact this
+
+/-- **Uniqueness** (qubit): every `ρ(t)` solving the master equation of the model's operators on
+`[0, ∞)` is the explicit solution started at `ρ(0)`. -/
+theorem qubit_solution_unique (q : Nat) (t1 t2 : Option Frac) (h : Admissible t1 t2) :
+    ∃ ops, qubitOps true 2 q t1 t2 = .ok ops ∧
+      ∀ ρ : ℝ → Matrix (Fin 2) (Fin 2) ℂ, SolvesOnNonneg (gen2 ops) ρ →
+        ∀ t, 0 ≤ t → ρ t = relaxSol2 (popRate t1) (cohRate t1 t2) (ρ 0) t := by
+  obtain ⟨ops, hops, hg, _⟩ := qubitOps_gen_all 2 q t1 t2 h
+  refine ⟨ops, hops, fun ρ hρ t ht => ?_⟩
+  have hgen : gen2 ops = relaxGen2 (popRate t1) (2 * cohRate t1 t2 - popRate t1) := funext hg
+  have hΓ : cohRate t1 t2 = popRate t1 / 2 + (2 * cohRate t1 t2 - popRate t1) / 2 := by ring
+  rw [hgen] at hρ
+  have := relaxSol2_unique _ _ (ρ 0) ρ hρ rfl t ht
+  rw [← hΓ] at this
+  exact this
+
+-- non-vacuity: the four shapes of admissible arguments (inside, boundary, t1 only, t2 only)
+example : Admissible (some ⟨3, 2⟩) (some ⟨2, 1⟩) ∧ Admissible (some ⟨1, 1⟩) (some ⟨2, 1⟩) ∧
+    Admissible (some ⟨1, 1⟩) none ∧ Admissible none (some ⟨5, 1⟩) := by
+  refine ⟨⟨?_, ?_, ?_⟩, ⟨?_, ?_, ?_⟩, ⟨?_, ?_, ?_⟩, ⟨?_, ?_, ?_⟩⟩ <;> intros <;>
+    simp_all [Frac.Pos, Frac.toReal] <;> (try subst_vars) <;> norm_num
+
+/-- **Exponential laws** (corollaries): with `t1` the excited population is `e^{−t/t1} ρ₁₁(0)` and
+the ground population gains what it loses; with `t2` the coherence has magnitude
+`e^{−t/t2} |ρ₀₁(0)|`; with `t1` only the coherence decays as `e^{−t/(2 t1)}`; without `t1` the
+populations are constant. -/
+theorem exponential_laws (t1 t2 : Frac) (ρ0 : Matrix (Fin 2) (Fin 2) ℂ) (t : ℝ) :
+    (∀ o2, relaxSol2 (popRate (some t1)) (cohRate (some t1) o2) ρ0 t 1 1 =
+        (Real.exp (-(t / t1.toReal)) : ℂ) * ρ0 1 1) ∧
+    (∀ o2, relaxSol2 (popRate (some t1)) (cohRate (some t1) o2) ρ0 t 0 0 =
+        ρ0 0 0 + (1 - (Real.exp (-(t / t1.toReal)) : ℂ)) * ρ0 1 1) ∧
+    (∀ o1, ‖relaxSol2 (popRate o1) (cohRate o1 (some t2)) ρ0 t 0 1‖ =
+        Real.exp (-(t / t2.toReal)) * ‖ρ0 0 1‖) ∧
+    ‖relaxSol2 (popRate (some t1)) (cohRate (some t1) none) ρ0 t 0 1‖ =
+        Real.exp (-(t / (2 * t1.toReal))) * ‖ρ0 0 1‖ ∧
+    (∀ o2, relaxSol2 (popRate none) (cohRate none o2) ρ0 t 1 1 = ρ0 1 1) := by
+  have e1 : 1 / t1.toReal * t = t / t1.toReal := by ring
+  have e2 : 1 / t2.toReal * t = t / t2.toReal := by ring
+  have e3 : 1 / t1.toReal / 2 * t = t / (2 * t1.toReal) := by ring
+  refine ⟨fun o2 => ?_, fun o2 => ?_, fun o1 => ?_, ?_, fun o2 => ?_⟩
+  · rw [(relaxSol2_apply _ _ ρ0 t).2.1]; simp only [popRate, dec, e1]
+  · rw [(relaxSol2_apply _ _ ρ0 t).1]; simp only [popRate, dec, e1]
+  · rw [(relaxSol2_apply _ _ ρ0 t).2.2.1]
+    simp only [cohRate, dec, e2, norm_mul, Complex.norm_real, Real.norm_eq_abs, abs_of_pos (Real.exp_pos _)]
+  · rw [(relaxSol2_apply _ _ ρ0 t).2.2.1]
+    simp only [cohRate, popRate, dec, e3, norm_mul, Complex.norm_real, Real.norm_eq_abs,
+      abs_of_pos (Real.exp_pos _)]
+  · rw [(relaxSol2_apply _ _ ρ0 t).2.1]; simp [popRate, dec]
+
+/-- **Validity** (qubit): for every admissible `(t1, t2)`, every `t ≥ 0` and every density matrix
+`ρ₀` the evolved `ρ(t)` is a density matrix (positive semidefinite, hence Hermitian; trace 1). -/
+theorem qubit_state_valid (t1 t2 : Option Frac) (h : Admissible t1 t2) (t : ℝ) (ht : 0 ≤ t)
+    (ρ0 : Matrix (Fin 2) (Fin 2) ℂ) (hρ : IsDensity ρ0) :
+    IsDensity (relaxSol2 (popRate t1) (cohRate t1 t2) ρ0 t) :=
+  relaxSol2_density _ _ t (popRate_nonneg h) (popRate_le h) ht hρ
+
+-- non-vacuity: `|+⟩⟨+|` is a density matrix
+example : IsDensity plusState := plusState_density
+
+/-- **The condition `t2 ≤ 2·t1` is exact**: for positive real `t1`, `t2` the specified decay laws
+(`e^{−t/t1}` for the population, `e^{−t/t2}` for the coherence) keep every density matrix a density
+matrix for all `t ≥ 0` if and only if `t2 ≤ 2·t1`.  (For `t2 > 2·t1` the state `|+⟩⟨+|` has a
+negative determinant at `t = 1/(1/t1 − 2/t2)`.) -/
+theorem valid_iff_t2_le_2t1 (t1 t2 : ℝ) (h1 : 0 < t1) (h2 : 0 < t2) :
+    (∀ ρ0, IsDensity ρ0 → ∀ t, 0 ≤ t → IsDensity (relaxSol2 (1 / t1) (1 / t2) ρ0 t)) ↔ t2 ≤ 2 * t1 := by
+  rw [relaxSol2_density_iff (1 / t1) (1 / t2) (by positivity)]
+  rw [div_le_iff₀ h1, show 2 * (1 / t2) * t1 = (2 * t1) / t2 by ring, le_div_iff₀ h2, one_mul]
+
+/-- the repaired code accepts a positive pair `(t1, t2)` exactly when the decay laws it specifies
+keep all states physical -/
+theorem accepted_iff_physical (dim q : Nat) (t1 t2 : Frac) (h1 : t1.Pos) (h2 : t2.Pos) :
+    (∃ ops, qubitOps true dim q (some t1) (some t2) = .ok ops) ↔
+      ∀ ρ0, IsDensity ρ0 → ∀ t, 0 ≤ t → IsDensity (relaxSol2 (1 / t1.toReal) (1 / t2.toReal) ρ0 t) := by
+  rw [accepts_iff dim q t1 t2 h1 h2, valid_iff_t2_le_2t1 _ _ h1.toReal_pos h2.toReal_pos]
+
+/-- **Counter-example beyond the boundary** (`t1 = 1`, `t2 = 3`): the decay laws `e^{−t}`, `e^{−t/3}`
+take `|+⟩⟨+|` out of the positive semidefinite matrices at `t = 3`. -/
+theorem C15_unphysical_beyond_boundary :
+    ¬ (relaxSol2 1 (1 / 3) plusState 3).PosSemidef := by
+  have := (relaxSol2_not_posSemidef 1 (1 / 3) (by norm_num)).2
+  norm_num at this
+  exact this
+
+/-! ### Three-level subsystem -/
+
+/-- **Qutrit, explicit solution** (`s·s = 2`, i.e. `destroy(3)`): for every admissible `(t1, t2)` the
+repaired code accepts, the explicit `ρ(t)` (`relaxSol3`: `ρ₂₂ e^{−2t/t1}`, `ρ₁₁(t) = (ρ₁₁+2ρ₂₂)e^{−t/t1}
+− 2ρ₂₂e^{−2t/t1}`, coherence rates `1/t2`, `1/t2 + 1/t1`, `4/t2 − 1/t1`, the 0–1 coherence fed by the
+1–2 coherence) solves the master equation of the model's operators for every initial 3×3 matrix,
+starts at `ρ₀`, and is the only solution on `[0, ∞)`. -/
+theorem qutrit_solution (q : Nat) (s : ℝ) (hs : s * s = 2) (t1 t2 : Option Frac) (h : Admissible t1 t2) :
+    ∃ ops, qubitOps true 3 q t1 t2 = .ok ops ∧
+      (∀ ρ0, Solves (gen3 s ops) (relaxSol3 s (popRate t1) (2 * cohRate t1 t2 - popRate t1) ρ0) ∧
+        relaxSol3 s (popRate t1) (2 * cohRate t1 t2 - popRate t1) ρ0 0 = ρ0) ∧
+      ∀ ρ : ℝ → Matrix (Fin 3) (Fin 3) ℂ, SolvesOnNonneg (gen3 s ops) ρ →
+        ∀ t, 0 ≤ t → ρ t = relaxSol3 s (popRate t1) (2 * cohRate t1 t2 - popRate t1) (ρ 0) t := by
+  obtain ⟨ops, hops, _, hg⟩ := qubitOps_gen_all 3 q t1 t2 h
+  have hgen : gen3 s ops = relaxGen3 s (popRate t1) (2 * cohRate t1 t2 - popRate t1) := funext (hg s)
+  refine ⟨ops, hops, fun ρ0 => ⟨?_, relaxSol3_zero _ _ _ _⟩, fun ρ hρ t ht => ?_⟩
+  · rw [hgen]; exact relaxSol3_solves _ _ _ hs ρ0
+  · rw [hgen] at hρ; exact relaxSol3_unique _ _ _ hs (ρ 0) ρ hρ rfl t ht
+
+/-- **Validity for `d = 3`**: admissible `(t1, t2)`, `t ≥ 0`: density matrices stay density matrices;
+on states supported on levels 0, 1 the evolution is the qubit evolution (the qubit laws hold). -/
+theorem qutrit_state_valid (s : ℝ) (hs : s * s = 2) (t1 t2 : Option Frac) (h : Admissible t1 t2)
+    (t : ℝ) (ht : 0 ≤ t) :
+    (∀ ρ0, IsDensity ρ0 →
+      IsDensity (relaxSol3 s (popRate t1) (2 * cohRate t1 t2 - popRate t1) ρ0 t)) ∧
+    ∀ σ : Matrix (Fin 2) (Fin 2) ℂ,
+      relaxSol3 s (popRate t1) (2 * cohRate t1 t2 - popRate t1) (embed23 σ) t =
+        embed23 (relaxSol2 (popRate t1) (cohRate t1 t2) σ t) := by
+  refine ⟨fun ρ0 hρ => relaxSol3_density s _ _ t hs (popRate_nonneg h)
+    (by have := popRate_le h; linarith) ht hρ, fun σ => ?_⟩
+  rw [relaxSol3_embed]
+  congr 2; ring
+
+example : IsDensity (embed23 plusState) := embed23_density plusState_density
+
+/-! ### Several subsystems -/
+
+/-- **Product states of two subsystems of any dimensions**, any lists of local collapse operators
+(rate, matrix): if `ρA(t)`, `ρB(t)` solve the local master equations, `ρA(t) ⊗ ρB(t)` solves the
+master equation with every operator placed on its own factor (`A ⊗ 1`, `1 ⊗ B`), and it is a density
+matrix whenever both factors are. -/
+theorem product_states {m n : Type} [Fintype m] [DecidableEq m] [Fintype n] [DecidableEq n]
+    (opsA : List (ℝ × Matrix m m ℂ)) (opsB : List (ℝ × Matrix n n ℂ))
+    (ρA : ℝ → Matrix m m ℂ) (ρB : ℝ → Matrix n n ℂ)
+    (hA : Solves (generator 0 opsA) ρA) (hB : Solves (generator 0 opsB) ρB) :
+    Solves (generator 0 (jointOps opsA opsB)) (fun t => kroneckerMap (· * ·) (ρA t) (ρB t)) ∧
+    ∀ t, IsDensity (ρA t) → IsDensity (ρB t) → IsDensity (kroneckerMap (· * ·) (ρA t) (ρB t)) :=
+  ⟨solves_kron opsA opsB ρA ρB hA hB, fun _ h1 h2 => h1.kron h2⟩
+
+/-- **Register of any number of qubits, per-qubit times, every joint state.**  `cfg` lists
+`(t1, t2)` for each qubit (each admissible).  `modelRegOps cfg 0` are the operators the model returns
+for the qubits `0, 1, …` (`qubitOps true 2 q …`), each placed on its own tensor factor of
+`Reg cfg = Fin 2 × (Fin 2 × … × Unit)`.  For every initial matrix `ρ₀` of the register — product or
+entangled — the explicit joint solution `regSol` (the qubit solution applied on every factor) solves
+the joint master equation and starts at `ρ₀`; for `t ≥ 0` it maps density matrices to density
+matrices. -/
+theorem register_solution (cfg : List (Option Frac × Option Frac))
+    (h : ∀ c ∈ cfg, Admissible c.1 c.2) (ρ0 : Matrix (Reg cfg) (Reg cfg) ℂ) :
+    Solves (generator 0 (modelRegOps cfg 0)) (fun t => regSol cfgRate cfg t ρ0) ∧
+    regSol cfgRate cfg 0 ρ0 = ρ0 ∧
+    ∀ t, 0 ≤ t → IsDensity ρ0 → IsDensity (regSol cfgRate cfg t ρ0) := by
+  refine ⟨?_, regSol_zero cfgRate cfg ρ0, fun t ht hρ =>
+    regSol_density cfgRate cfg (cfgRate_ok cfg h) t ht hρ⟩
+  have : generator 0 (modelRegOps cfg 0) = regGen cfgRate cfg :=
+    funext fun ρ => modelRegOps_generator cfg h 0 ρ
+  rw [this]
+  exact regSol_solves cfgRate cfg ρ0
+
+-- non-vacuity: two qubits with different times (one at the boundary, one with t1 only), initial state
+-- the entangled Bell state (a density matrix that is not a product)
+example : (∀ c ∈ [((some ⟨1, 1⟩, some ⟨2, 1⟩) : Option Frac × Option Frac), (some ⟨3, 1⟩, none)],
+      Admissible c.1 c.2) ∧
+    IsDensity (bellState ((some ⟨1, 1⟩, some ⟨2, 1⟩) : Option Frac × Option Frac) (some ⟨3, 1⟩, none)) := by
+  refine ⟨?_, bellState_density _ _⟩
+  intro c hc
+  simp only [List.mem_cons, List.not_mem_nil, or_false] at hc
+  rcases hc with rfl | rfl <;> refine ⟨?_, ?_, ?_⟩ <;> intros <;>
+    simp_all [Frac.Pos, Frac.toReal] <;> (try subst_vars) <;> norm_num
+
+/-- **each qubit decays independently**: if the initial matrix of the register is a product between
+the first qubit and the rest, it remains one; the first qubit follows its own explicit solution with
+its own `(t1, t2)`, the rest its own joint solution (apply repeatedly for full product states) -/
+theorem register_independent (c : Option Frac × Option Frac) (cs : List (Option Frac × Option Frac))
+    (t : ℝ) (ρA : Matrix (Fin 2) (Fin 2) ℂ) (ρR : Matrix (Reg cs) (Reg cs) ℂ) :
+    regSol cfgRate (c :: cs) t (kroneckerMap (· * ·) ρA ρR) =
+      kroneckerMap (· * ·) (relaxSol2 (popRate c.1) (cohRate c.1 c.2) ρA t) (regSol cfgRate cs t ρR) := by
+  have := regSol_kron cfgRate c cs t ρA ρR
+  have hΓ : (cfgRate c).1 / 2 + (cfgRate c).2 / 2 = cohRate c.1 c.2 := by simp only [cfgRate]; ring
+  rw [hΓ] at this
+  exact this
 
 end QipVerif.C15
